@@ -634,8 +634,8 @@ pub fn gen(out: &mut dyn std::io::Write, thorough: bool, seed: u64) {
                 Err(_) => "-".to_string(),
             };
             writeln!(out, "KYX {} full {exp} c17", hex(&bytes)).unwrap();
-            // every truncation point for the first 60 models of the thorough tier, a sample otherwise (each line carries the file)
-            let step = if thorough && mi < 60 { 1 } else { (bytes.len() / 40).max(1) };
+            // every truncation point for the first 10 models of the thorough tier, a sample otherwise (each line carries the file)
+            let step = if thorough && mi < 10 { 1 } else { (bytes.len() / 40).max(1) };
             for cut in (0..bytes.len()).step_by(step) {
                 writeln!(out, "KYX {} {cut} c17", hex(&bytes)).unwrap();
             }
